@@ -75,3 +75,35 @@ func VerifC09_Cadence() {
 	zz.Assert("C09.ticker_has_configured_interval", zz.GhostLen("time.ticker") == 1 && zz.GhostInt("time.ticker", 0, 0) == int(d))
 	zz.Assert("C09.ticker_stopped_on_exit", zz.GhostLen("time.stop") == 1)
 }
+
+// VerifC09_TimeBound: the same loop with REAL elapsed time modelled (the k-th tick of a ticker is delivered no
+// earlier than its creation + k * interval; instants are monotone with the schedule), interval 1 s, arbitrary
+// scheduling delays of the ticking goroutine, up to 3 received ticks: the k-th evaluation after the first happens at
+// least k intervals after the first evaluation, i.e. by elapsed time e at most 1 + floor(e / interval) evaluations.
+//
+//verif:conc
+//verif:unroll 3
+//verif:timers real
+//verif:timeout 300
+//verif:replace (*$M/internal/workers.PoolManager).NewTriggerPool c09NewTriggerPool
+//verif:replace (*$M/internal/workers.TriggerPool).Start c09Start
+//verif:replace (*$M/internal/workers.TriggerPool).Trigger c09Trigger
+func VerifC09_TimeBound() {
+	evals := 0
+	rateFn := func(time.Time) int {
+		zz.Event("eval", evals)
+		evals++
+		return 1
+	}
+	c09Triggers, c09Started = nil, 0
+	ctx, cancel := context.WithCancel(context.Background())
+	go func() { cancel() }()
+	w := NewIterationWorker(time.Second, rateFn)
+	w(ctx, nil, workers.New(0, nil), options.RunOptions{Concurrency: 1})
+	zz.Cover("C09.time.returned")
+	for k := 1; k <= 3; k++ {
+		zz.CoverIf("C09.time.kth_evaluation", zz.Happened("eval", k))
+		zz.Assert("C09.time.at_most_one_evaluation_per_elapsed_interval", !zz.Happened("eval", k) ||
+			zz.NotBefore("eval", "eval", 0, k, time.Duration(k)*time.Second))
+	}
+}
